@@ -770,6 +770,26 @@ def t_chain(rng):
   return _single(rng, f, 'chain')
 
 
+def t_weight_chain(rng):
+  """4-8 weight-carrying operators back to back (optionally with a float op in between): many insertions in one subgraph."""
+  def f(g, rng):
+    k = int(rng.integers(4, 9))
+    if rng.random() < 0.6:
+      y = g.inp((2, 6))
+      for i in range(k):
+        y = g.fc(y, int(rng.choice([4, 6])), bias=bool(rng.random() < 0.6))
+        if rng.random() < 0.25:
+          y = g.relu(y) if rng.random() < 0.5 else g.tanh(y)
+    else:
+      y = g.inp((1, 5, 5, 2))
+      for i in range(k):
+        y = g.conv(y, int(rng.choice([2, 3])), k=int(rng.choice([1, 3])))
+        if rng.random() < 0.25:
+          y = g.relu(y)
+    return [y]
+  return _single(rng, f, 'weight_chain')
+
+
 def t_all_unsupported(rng):
   def f(g, rng):
     x = g.inp((2, 4))
@@ -780,7 +800,7 @@ def t_all_unsupported(rng):
 
 TEMPLATES = [t_output_also_consumed, t_producer_zero_float_out, t_repeated_operand,
              t_unsupported_between, t_multi_group, t_shared_const_tensor, t_shared_buffer,
-             t_chain]
+             t_chain, t_weight_chain]
 
 
 def model_for_case(rng, multi_sub_p=0.0, template_p=0.15, **kw):
